@@ -6,8 +6,8 @@ RX_PATTERNS = ['a(b|c)*d', '[0-9]+', 'ab|cd', '[^a]x?', 'a{2}']
 def run(tier, seed):
     d = {g.name: g for g in families.g_dir() + families.g_err() + families.t_sets()}
     R = report.Run('C06', tier, seed); cases = []
-    if tier == 'quick': tok = [('d1', [2], 1, 1), ('nrun4', [1], 0, 0), ('er1', [2], 1, 1)]; byt = [('kwid', [2], 1, 1)]
-    else: tok = [(n, [1, 2, 3], 1, 1) for n in ('d1', 'd2', 'etf', 'lrece', 'rrece', 'nullrun', 'nrun4', 'chain', 'trail', 'er1', 'er2', 'er3')]; byt = [(n, [1, 2, 3], 1, 1) for n in ('kwid', 'eqeq', 'kwx', 'num', 'nlterm', 'hi')]
+    if tier == 'quick': tok = [('d1', [2], 1, 1), ('nrun4', [1], 0, 0), ('nrun3', [2], 0, 0), ('er1', [2], 1, 1)]; byt = [('kwid', [2], 1, 1)]
+    else: tok = [(n, [1, 2, 3], 1, 1) for n in ('d1', 'd2', 'etf', 'lrece', 'rrece', 'nullrun', 'nrun4', 'nrun3', 'chain', 'trail', 'er1', 'er2', 'er3')]; byt = [(n, [1, 2, 3], 1, 1) for n in ('kwid', 'eqeq', 'kwx', 'num', 'nlterm', 'hi')]
     A = ['accept']
     outside = ['inputs longer than LEN (the claim is bounded; the unwinding bounds are closed forms of LEN and are checked by unwinding assertions)', 'string_buffer (std::string internals)',
                'std::vector-backed stacks (heap model)', 'IR is the -O1 lowering: an access the optimiser removed is not seen']
